@@ -185,7 +185,9 @@ class MaintenanceInfo:
             return None
         o = json.loads(json_string)
         ret = cls()
-        ret._set({k: MaintenanceEntry(**v) for (k, v) in o.items()})
+        # tolerate fields added by later versions
+        known = ('state', 'deadline', 'expected_end')
+        ret._set({k: MaintenanceEntry(**{f: v[f] for f in known if f in v}) for (k, v) in o.items()})
         ret.finalize()
         return ret
 
